@@ -6,12 +6,22 @@
 namespace vf {
 
 // ---------------------------------------------------------------- shared generator
+// four regimes: small grammars and short inputs; larger alphabets, more and longer rules, longer inputs; a list of
+// phrases of a small grammar (repetition of the same phrase in different places of the parse list); a sequence of
+// ambiguous components over a tiny alphabet
 static Case genParseCase(Choices &c, int tier, const char *prop, GramOpts o, int nInputs, int sentencePct) {
   Case cs;
   cs.prop = prop;
   if (tier) { o.maxT = std::max(o.maxT, 4); o.maxN = std::max(o.maxN, 5); o.extraRules += 2; }
+  int maxLen = tier ? 14 : 9;
+  int r = c.upto(9);
+  int regime = r <= 3 ? 0 : r <= 5 ? 1 : r <= 7 ? 2 : 3;
+  if (regime == 1) { o.maxT = std::max(o.maxT, 6); o.maxN = std::max(o.maxN, 7); o.extraRules = std::max(o.extraRules, 8); o.maxRhs = std::max(o.maxRhs, 4); maxLen = tier ? 22 : 16; }
   GramDef gd;
-  gd.raw = genGrammar(c, o);
+  gd.raw = regime == 3 ? genSeqGrammar(c, o) : genGrammar(c, o);
+  if (regime == 3) maxLen = tier ? 12 : 9;
+  WrapInfo wi;
+  if (regime == 2) wi = wrapList(c, gd.raw, o);
   gd.strict = c.flip();
   // prefer a strictness under which the reference accepts the grammar
   if (!classify(gd.raw, gd.strict).empty() && classify(gd.raw, !gd.strict).empty()) gd.strict = !gd.strict;
@@ -19,10 +29,14 @@ static Case genParseCase(Choices &c, int tier, const char *prop, GramOpts o, int
   Gram g;
   if (!toGram(gd.raw, g) || !classify(gd.raw, gd.strict).empty()) return cs; // run() discards it
   std::vector<int> ml = minLen(g);
-  int maxLen = tier ? 14 : 9;
+  int phraseSym = -1, sepTerm = -1;
+  if (wi.shape) {
+    phraseSym = g.symByName(wi.inner);
+    if (!wi.sep.empty()) sepTerm = g.symByName(wi.sep);
+  }
   for (int k = 0; k < nInputs; k++) {
     int kind = c.chance(sentencePct) ? 0 : (c.flip() ? 1 : 2);
-    cs.inputs.push_back(toCodes(g, genInputIdx(c, g, ml, maxLen, kind)));
+    cs.inputs.push_back(toCodes(g, genInputIdx(c, g, ml, maxLen, kind, phraseSym, sepTerm)));
   }
   return cs;
 }
